@@ -39,15 +39,16 @@ func (p *Prop) Meta() simkit.Meta {
 }
 
 type ctx struct {
-	p       *Prop
-	g       simkit.G
-	f       simkit.G
-	opt     simkit.RunOpt
-	hist    []string
-	ftrace  []string
-	hash    simkit.Hasher
-	viol    *simkit.Violation
-	nontriv bool
+	p          *Prop
+	g          simkit.G
+	f          simkit.G
+	opt        simkit.RunOpt
+	hist       []string
+	ftrace     []string
+	hash       simkit.Hasher
+	viol       *simkit.Violation
+	nontriv    bool
+	shortMarks bool // marks sub-simulation: the history is short enough for very large ids
 }
 
 func (c *ctx) logf(format string, a ...any) {
@@ -101,7 +102,7 @@ func (p *Prop) Run(t *simhook.Tape, opt simkit.RunOpt) *simkit.RunResult {
 	c := &ctx{p: p, g: simkit.Work(t), f: simkit.Fault(t), opt: opt, hash: simkit.NewHasher()}
 	sub := c.g.Pick(3, 2, 4)
 	var body func()
-	runBudget := uint64(4000000)
+	runBudget := uint64(20000000)
 	switch sub {
 	case 0:
 		body = c.marks
